@@ -74,11 +74,17 @@ class HashedIterable(Generic[T]):
 
     def __post_init__(self):
         if self.iterable and not isinstance(self.iterable, HashedIterable):
-            self.iterable = (HashedValue(v) if not isinstance(v, HashedValue) else v for v in self.iterable)
+            self.iterable = self._wrapped_lazily_(self.iterable)
 
     def set_iterable(self, iterable):
         if iterable and not isinstance(iterable, HashedIterable):
-            self.iterable = (HashedValue(v) if not isinstance(v, HashedValue) else v for v in iterable)
+            self.iterable = self._wrapped_lazily_(iterable)
+
+    @staticmethod
+    def _wrapped_lazily_(iterable) -> Iterable[HashedValue]:
+        # a map, not a generator: a generator through which an exception of the source passes is finished for good, and
+        # the elements the source still has (an iterator whose __next__ failed once) would never be pulled.
+        return map(lambda v: v if isinstance(v, HashedValue) else HashedValue(v), iterable)
 
     def get(self, key: int, default: Any) -> HashedValue[T]:
         return self.values.get(key, default)
